@@ -168,6 +168,47 @@ RESULTS = {
  "C19-4B": ("C19", "C19/panic/httpserver.(*replacer).getSubstitution", "quick", False, "the end-to-end site also answers as catch-all, host names with a trailing dot, {label3}..{label5}"),
  "C20-4A": ("C20", "C20/status-mismatch", "quick", False, "handler outcomes that send a 103 interim response first"),
  "C20-4B": ("C20", "C20/line-missing, C20/line-garbled", "quick", False, "a third of the logs use rotate_disable and every round reloads its own configuration half way"),
+ # ---- round 5
+ "C01-5A": ("C01", "C01/misrouted/want-site-via-exact/got-catch-all-host/prefix", "quick", True, ""),
+ "C01-5B": ("C01", "C01/misrouted/want-none-via-exact/got-exact-host/non-prefix", "quick", False, "request paths that share a prefix with a site path without continuing it at a segment boundary (\"/X\") added to the quick battery"),
+ "C02-5A": ("C02", "C02/hidden-file-served", "quick", False, "a site whose root is another directory lists the origin Casketfile's base name as an index file; symlink and hard-link aliases of the Casketfile"),
+ "C02-5B": ("C02", "C02/listing-names-hidden", "quick", False, "the served root is reached through a symbolic link"),
+ "C03-5A": ("C03", "C03/index-of-file-scoped-rule", "quick", False, "basicauth rule scoped to the index FILE of the root (`index home.html`), requested as the directory"),
+ "C03-5B": ("C03", "C03/disclosed/basicauth", "quick", False, "basicauth block whose exclusions name a directory; every unclean spelling of it"),
+ "C04-5A": ("C04", "C04/req-malformed-at-backend", "quick", True, ""),
+ "C04-5B": ("C04", "C04/req-header-rule/set, C04/resp-header-rule/set", "quick", False, "configuration that sets the same upstream/downstream field twice"),
+ "C05-5A": ("C05", "C05/e2e-not-answered-by-healthy/*", "quick", False, "backends whose connect times out (listen backlog full) beside a healthy one"),
+ "C05-5B": ("C05", "C05/hash-not-sticky/header", "quick", False, "header policy named in other letter case than the request sends it"),
+ "C06-5A": ("C06", "C06/mixed-tls-plaintext-accepted", "quick", True, ""),
+ "C06-5B": ("C06", "C06/incompatible-same-name-accepted/named", "quick", True, ""),
+ "C07-5A": ("C07", "C07/request-failed-during-reload", "quick", False, "a proxied site with a slow active health check in the reloaded configuration"),
+ "C07-5B": ("C07", "C07/in-flight-request-cut-by-reload", "quick", True, ""),
+ "C08-5A": ("C08, C16", "C08/wait-never-returns-after-failed-loads (C08), C16/wait-never-returns (C16, at arrival)", "quick", False, "C08 waits on the final instance after stopping it"),
+ "C08-5B": ("C08", "C08/load-blocked-after-failed-attempt/caskethttp/basicauth.GetHtpasswdMatcher", "quick", False, "failure kind: htpasswd file that lacks the named user"),
+ "C09-5A": ("C09", "C09/precedence/redir-before-content/plain-twin-of-a-tls-block", "quick", False, "one block listing a plain and a TLS address with `tls` and `redir`, in both line orders"),
+ "C09-5B": ("C09", "C09/perm-differs/header (and pairs with it)", "quick", False, "three header lines of overlapping scopes that set the same field, forced into one block in eight"),
+ "C10-5A": ("C10", "C10/roundtrip/inline", "quick", True, ""),
+ "C10-5B": ("C10", "C10/roundtrip/inline", "quick", True, ""),
+ "C11-5A": ("C11", "C11/nontermination/cpu/fastcgi (templates), C11/crash/... out of memory (basicauth, push, header)", "quick", False, "cases with surplus tokens after the closing brace of a sub-block; a load that runs alone for 120 s and has used > 60 s of processor time in casket code is a violation (was: inconclusive); children get an address-space limit"),
+ "C11-5B": ("C11", "C11/disagree/basicauth/validate-rejects-start-accepts", "quick", False, "user file with a malformed line after a good one; cases naming the fixture's user files and cases whose second identical validation differs are always part of the validate-against-start comparison"),
+ "C12-5A": ("C12", "C12/concurrent/body-of-another-request", "quick", True, ""),
+ "C12-5B": ("C12", "C12/error-return/empty-body/*", "quick", False, "innermost handler that first answers with X-Accel-Redirect + Content-Length: 0 and is reached again for the internal location (8 second-pass behaviours)"),
+ "C13-5A": ("C13", "C13/early-answer/status-changed", "quick", False, "responder that answers on the params alone (or after one stdin record) and closes while the client is still uploading"),
+ "C13-5B": ("C13", "C13/script-split-wrong", "quick", True, ""),
+ "C14-5A": ("C14", "C14/client-write-error-counted-as-failure", "quick", False, "client connection whose body writes fail after a correct backend answer"),
+ "C14-5B": ("C14", "C14/fails-lost", "quick", True, ""),
+ "C15-5A": ("C15", "C15/non-qualifying-site-managed", "quick", False, "second pass over the site sets with the default HTTP port moved to 8080 (qualification verdicts only)"),
+ "C15-5B": ("C15", "C15/non-qualifying-site-managed", "quick", False, "tls variants made of two tls lines (manual line followed or preceded by a line without certificate)"),
+ "C16-5A": ("C16", "C16/callback-missing/first-startup/start", "quick", True, ""),
+ "C16-5B": ("C16", "C16/wait-returned-early", "quick", False, "every other history ends with the process-wide Stop and graceful servers whose Stop outlasts their serve loop"),
+ "C17-5A": ("C17", "C17/limit-of-wrong-scope", "quick", True, ""),
+ "C17-5B": ("C17", "C17/listener-setting-not-strictest/idle", "quick", True, ""),
+ "C18-5A": ("C18", "C18/undecodable", "quick", False, "handlers that write their response and return an error value (a fifth of the written cases), error returns with an error value"),
+ "C18-5B": ("C18", "C18/undecodable", "quick", True, ""),
+ "C19-5A": ("C19", "C19/hello-heuristic-panic/looksLikeEdge", "quick", True, ""),
+ "C19-5B": ("C19", "C19/clienthello-split-read", "quick", True, ""),
+ "C20-5A": ("C20", "C20/expansion/uri", "quick", True, ""),
+ "C20-5B": ("C20", "C20/line-missing, C20/line-unexpected/excepted", "quick", False, "sites with two internal rewrites, into and out of a location that except lists name"),
 }
 
 VERIFY = {}
